@@ -81,9 +81,15 @@ def spec_resolve(recipe, op_key, scope):
   return res
 
 
-def resolve_ops(qt, m):
-  """per subgraph: list of (key, mode, cfg) for the real ops + INPUT/OUTPUT."""
-  recipe = json.loads(json.dumps(qt.get_quantization_recipe()))
+def resolve_ops(qt, m, entered=None):
+  """per subgraph: list of (key, mode, cfg) for the real ops + INPUT/OUTPUT.
+  entered: the accepted rule entries in the order they were made; the recipe
+  they denote is rebuilt with the documented edit model (gen_recipe.edit_model)
+  instead of being read back from the manager."""
+  if entered is not None:
+    recipe = json.loads(json.dumps(gr.edit_model(entered), default=lambda o: getattr(o, 'value', str(o))))
+  else:
+    recipe = json.loads(json.dumps(qt.get_quantization_recipe()))
   out = []
   for g in m.subgraphs:
     ops = []
@@ -174,7 +180,12 @@ def check_case(qt, mb, out_bytes, stats, desc):
   """returns list of {'key','what'}"""
   bad = []
   m_in, m_out = og.read(mb), og.read(out_bytes)
-  res = resolve_ops(qt, m_in)
+  entered = None
+  if isinstance(desc, list):                 # rule entries made through update_quantization_recipe
+    entered = gr.entered_rules([tuple(r) for r in desc])
+  elif isinstance(desc, str) and desc in gr.shipped():
+    entered = gr.shipped()[desc]              # a shipped recipe file, loaded unchanged
+  res = resolve_ops(qt, m_in, entered)
 
   def V(key, what):
     bad.append({'key': key, 'what': what})
@@ -311,7 +322,7 @@ def check_case(qt, mb, out_bytes, stats, desc):
       if key in BIAS_SLOT and BIAS_SLOT[key] < len(oout.inputs) and int(oout.inputs[BIAS_SLOT[key]]) != -1:
         islot = 2 if key == 'CONV_2D_TRANSPOSE' else 0
         qb, qi_, qw = qin(BIAS_SLOT[key]), qin(islot), qin(1)
-        if qb is not None and qi_ is not None and qw is not None:
+        if qb is not None and qi_ is not None and qw is not None and np.all(np.isfinite(qi_[0])):
           want = (qi_[0] * qw[0]).astype(np.float32).flatten()
           got = qb[0].flatten()
           # the stored bias scale is float32(input_scale * weight_scale) where the
@@ -353,7 +364,21 @@ def check_case(qt, mb, out_bytes, stats, desc):
             break
           pk = next((j for j, oo in enumerate(gin.operators) if src in [int(z) for z in oo.outputs]), None)
           if pk is not None and ops_info[pk][1] == 'static' and ops_info[pk][0] in FIXED:
-            continue   # fixed range, checked above
+            # a consumer of a FIXED-range producer derives its parameters from the range
+            # the producer's fixed parameters can represent (not from the calibrated one)
+            pcfg = ops_info[pk][2].activation_tensor_config
+            pb = pcfg.num_bits
+            fsc, fzp = FIXED[ops_info[pk][0]][pb]
+            fmin = (-(2 ** (pb - 1)) - fzp) * float(np.float32(fsc))
+            fmax = ((2 ** (pb - 1) - 1) - fzp) * float(np.float32(fsc))
+            if pcfg.symmetric:
+              fmin = -fmax
+            rz, rs = ref_zp_scale(np.array([fmin]), np.array([fmax]), abits, sym_a)
+            if not close_params(q, rz, rs):
+              V('C04:fixed-range-consumer-params', f'sg{gi} op{k} {key} input{slot} ({og.tname(gout.tensors[xo])}): '
+                f'scale {q[0].tolist()} zp {q[1].tolist()} vs {rs.tolist()} {rz.tolist()} derived from the fixed '
+                f'range of {ops_info[pk][0]} [{fmin}, {fmax}]')
+            continue
           snm = og.tname(gin.tensors[src])
           if snm not in stats:
             continue
@@ -376,6 +401,10 @@ def check_case(qt, mb, out_bytes, stats, desc):
         bnm = og.tname(gout.tensors[base(ti)]) if ti in producer or ti < n_orig else nm
         st = (stats or {}).get(bnm)
         nonfin = st is not None and not (np.all(np.isfinite(st['min'])) and np.all(np.isfinite(st['max'])))
+        if not nonfin and t.type in (I32, I64) and stats:
+          # a bias: its scale is input scale x weight scale; non-finite when the INPUT's statistic is
+          nonfin = any(not (np.all(np.isfinite(v_['min'])) and np.all(np.isfinite(v_['max'])))
+                       for v_ in stats.values() if v_)
         V('C04:scale-not-finite-positive' + (':nonfinite-statistic' if nonfin else ''),
           f'sg{gi} {nm}: {sc.tolist()[:4]}' + (f' (statistics of {bnm}: {st})' if nonfin else ''))
       bits = {I4: 4, I8: 8, I16: 16, I32: 32, I64: 64}.get(t.type)
@@ -573,12 +602,38 @@ def main():
         continue
       yield mb, qt, None, desc, dict(info, real_stats=True, directed='same-tensor-two-modes')
 
+  def directed_respec(n):
+    """two operation-specific rules under ONE regex, then the first one entered
+    again with another config: the second rule must survive the replacement"""
+    done = 0
+    tries = 0
+    while done < n and tries < n * 20:
+      tries += 1
+      mb, info = gg.gen_model(rng, max_ops=rng.choice([3, 5, 6]),
+                              op_weights=['FULLY_CONNECTED', 'CONV_2D', 'EMBEDDING_LOOKUP', 'BATCH_MATMUL',
+                                          'DEPTHWISE_CONV_2D', 'TANH', 'ADD'])
+      present = sorted(set(k_ for k_, _ in gr.model_scopes(mb) if k_ in
+                           ('FULLY_CONNECTED', 'CONV_2D', 'EMBEDDING_LOOKUP', 'BATCH_MATMUL', 'DEPTHWISE_CONV_2D')))
+      if len(present) < 2:
+        continue
+      a, b = rng.sample(present, 2)
+      ncfg = gr.named_configs()
+      c1, c2, c3 = rng.choice(['wo8', 'drq8']), rng.choice(['wo8', 'drq8', 'fp16']), rng.choice(['wo8s', 'fp16'])
+      rg = rng.choice(['.*', '.'])
+      qt = quantizer.Quantizer(bytearray(mb))
+      desc = gr.apply_rules(qt, [(rg, a, ncfg[c1][0], c1), (rg, b, ncfg[c2][0], c2), (rg, a, ncfg[c3][0], c3)])
+      if len(desc) < 3:
+        continue
+      done += 1
+      yield mb, qt, None, desc, dict(info, real_stats=True, directed='respecified-rule')
+
   import itertools
   for mb, qt, stats, desc, info in itertools.chain(
       cg.gen_cases(rng, n_models), directed_shared(1500 if tier == 'thorough' else 120),
       directed_overflow(12 if tier == 'thorough' else 3),
       directed_fp16_range(300 if tier == 'thorough' else 30),
-      directed_same_tensor(400 if tier == 'thorough' else 40)):
+      directed_same_tensor(400 if tier == 'thorough' else 40),
+      directed_respec(200 if tier == 'thorough' else 20)):
     dist['cases'] += 1
     if info.get('directed'):
       dist['directed:' + info['directed']] += 1
